@@ -15,7 +15,7 @@ from .basen import HistNProp
 def obj_arr(vals, shape):
     a = np.empty(len(vals), dtype=object)
     for i, v in enumerate(vals):
-        a[i] = Fraction(v)
+        a[i] = Fraction(v) if isinstance(v, (str, int)) and v not in ("inf", "-inf") else xval(v)
     return a.reshape(shape)
 
 
@@ -742,11 +742,255 @@ def build_named(rng, setup, d, names, tags, extra, plain2d=None, parent_T=None, 
                  "_names": list(names), "_prov0": list(range(d))}, **extra)
 
 
+
+# ------------------------------------------------------------------ non-finite contents (stream:nonfinite)
+#
+# Float histograms in which some cell's content and / or squared error is NaN or +inf, reached the ways a user reaches them:
+# arrays holding NaN / inf given to the constructor (`literal`), h / array with 0 / 0 and x / 0 cells under
+# config.enable_free_arithmetics() (`div_array`), h * inf (0 * inf = NaN; `mul_inf`), float weights whose squares add up
+# beyond the float range (`overflow_fill`), contents near the top of the float range doubled (`overflow_scaled`).  The
+# property says "sums over all dropped axes": a sum with a NaN summand is NaN, inf plus finite (non-negative) numbers is
+# inf, a sum of finite numbers is the exact sum (all finite cells lie on a power-of-two grid on which every sum is exact; a
+# finite exact sum beyond the largest number of the result's float type is inf there).  Snapshots carry NaN as None and
+# +-inf as 'inf' / '-inf' (core.nrs); the oracle computes with the same three extra values (class Ext).  Not routed through
+# the model (no non-finite numbers there) unless every cell of the parent came out finite.  Negative cells (division by an
+# array with a negative entry, h * -inf, both under free arithmetics): the unchanged library refuses, outside free
+# arithmetics, every result with a negative content (HistogramBase.frequencies setter) -- such a refusal is accepted if it
+# leaves the histogram it was asked of untouched; a result that is returned must be the sums.
+
+ENABLE_NONFINITE = True
+NF_ROUTES = ["literal"] * 9 + ["div_array"] * 5 + ["mul_inf"] * 2 + ["overflow_fill"] * 2 + ["overflow_scaled"] * 2
+NF_PATTERNS = ["one_nan"] * 4 + ["one_inf"] * 2 + ["nan_and_inf_one_line"] * 3 + ["two_inf_one_line"] * 2 + \
+              ["two_nan_one_line", "scattered", "scattered", "nan_line", "none"]
+FLOAT_MAX = {"float16": Fraction(65504), "float32": Fraction((2**24 - 1) * 2**104), "float64": Fraction((2**53 - 1) * 2**971)}
+
+
+def nf_cells(rng, shape, pattern):
+    """{flat index: None (NaN) | 'inf'} for a histogram of that shape"""
+    size = int(np.prod(shape))
+    idx = lambda t: int(np.ravel_multi_index(t, shape))
+    cell = [rng.randrange(n) for n in shape]
+    if pattern == "none":
+        return {}
+    if pattern == "one_nan":
+        return {idx(cell): None}
+    if pattern == "one_inf":
+        return {idx(cell): "inf"}
+    if pattern == "scattered":
+        out = {i: rng.choice([None, None, "inf"]) for i in range(size) if rng.random() < 0.25}
+        return out or {rng.randrange(size): None}
+    # two cells (or all) of one line along an axis with more than one bin
+    ax = rng.choice([a for a, n in enumerate(shape) if n > 1])
+    if pattern == "nan_line":
+        return {idx(cell[:ax] + [j] + cell[ax + 1:]): None for j in range(shape[ax])}
+    j, k = rng.sample(range(shape[ax]), 2)
+    a, b = idx(cell[:ax] + [j] + cell[ax + 1:]), idx(cell[:ax] + [k] + cell[ax + 1:])
+    va, vb = {"nan_and_inf_one_line": (None, "inf"), "two_inf_one_line": ("inf", "inf"), "two_nan_one_line": (None, None)}[pattern]
+    return {a: va, b: vb}
+
+
+def rand_nonfinite_setup(rng, route=None, transformed=None):
+    """setup ops of a float parent (plain or of a transformed class) with non-finite cells; returns
+    (setup, d, names, tags, extra, plain2d, parent_T)"""
+    route = route or rng.choice(NF_ROUTES)
+    transformed = (rng.random() < 0.3) if transformed is None else transformed
+    tags = ["stream:nonfinite", f"nonfinite_route:{route}"]
+    extra = {"nonfinite": True, "no_model": True}
+    if transformed:
+        while True:
+            setup, d, names, t2, _, plain = rand_special_ops(rng)
+            if setup[0]["op"] == "of_special":
+                break
+        tags += [t for t in t2 if t.startswith(("class:", "transformed_names:", "named_by:"))] + ["nonfinite:transformed_class"]
+        init, parent_T = setup[0], False
+        shape = [len(b["bins"]) for b in init["axes"]]
+    else:
+        init, axes = rand_nd_op(rng, dtype="float64")
+        d, plain, parent_T = len(axes), None, None
+        shape = [len(a[1]) for a in axes]
+        names = init["names"] or [f"axis{i}" for i in range(d)]
+        tags.append("nonfinite:plain_class")
+    size = int(np.prod(shape))
+    if max(shape) == 1:
+        route = "literal" if route in ("div_array",) else route
+    init["missed"] = rs(rng.randint(0, 4))
+    small = lambda: [rng.choice([0, 0.5, 1.25, 2, 4.75]) for _ in range(size)]
+    setup = [init]
+    if route == "literal":
+        dt = rng.choice(["float64"] * 4 + ["float32"] * 2 + ["float16"])
+        pattern = rng.choice(NF_PATTERNS if max(shape) > 1 else ["one_nan", "one_inf", "scattered", "none"])
+        where = rng.choice(["freq", "freq", "err2", "both_same", "both_other", "freq_default_err2"])
+        f = [rs(x) for x in small()]
+        e = [rs(rng.randint(0, 40) / 4) for _ in range(size)]
+        cells = nf_cells(rng, shape, pattern)
+        if where in ("freq", "both_same", "both_other", "freq_default_err2"):
+            for i, v in cells.items():
+                f[i] = v
+        if where in ("err2", "both_same"):
+            for i, v in cells.items():
+                e[i] = v
+        if where == "both_other":
+            for i, v in nf_cells(rng, shape, rng.choice(NF_PATTERNS[:-1] if max(shape) > 1 else ["one_nan", "one_inf"])).items():
+                e[i] = v
+        init.update(freq=f, err2=None if where == "freq_default_err2" else e, dtype=dt, nonfinite=True)
+        tags += [f"nonfinite_pattern:{pattern}", f"nonfinite_where:{where}", f"nonfinite_dtype:{dt}"]
+        if pattern == "none":
+            extra.pop("no_model")           # an ordinary finite histogram: through the model as well
+            if any(n is None or n == "" for n in names):
+                extra["no_model"] = True
+    elif route == "div_array":
+        # contents k / 2**m, divisors 0 and powers of two: every quotient is exact, 0 / 0 = NaN, x / 0 = inf
+        dt = rng.choice(["float64", "float64", "int64", "float32"])
+        isint = dt.startswith("int")
+        init.update(freq=[rs(rng.choice([0, 0, 1, 2, 3, 5] if isint else [0, 0, 0.5, 1.25, 2, 4.75])) for _ in range(size)],
+                    err2=None if rng.random() < 0.4 else [rs(rng.choice([0, 1, 2, 4, 9])) for _ in range(size)], dtype=dt)
+        negative = rng.random() < 0.15
+        div = [rng.choice([0, 0, 1, 2, 4, 0.5] + ([-1, -2] if negative else [])) for _ in range(size)]
+        if not any(x == 0 for x in div):
+            div[rng.randrange(size)] = 0
+        setup.append({"op": "div_array", "h": 0, "out": 0, "arr": [rs(x) for x in div], "free": True})
+        tags.append(f"nonfinite_dtype:{dt}")
+        if negative:
+            tags.append("nonfinite:negative_cells")
+    elif route == "mul_inf":
+        neg = rng.random() < 0.25
+        init.update(freq=[rs(x) for x in small()], err2=None if rng.random() < 0.5 else [rs(rng.randint(0, 8) / 4) for _ in range(size)],
+                    dtype=rng.choice(["float64", "float64", "int64", "float32"]))
+        setup.append({"op": "mul_inf", "h": 0, "out": 0, "sign": -1 if neg else 1, "free": neg or rng.random() < 0.3,
+                      "how": rng.choice(["mul", "rmul", "imul"])})
+        if neg:
+            tags.append("nonfinite:negative_cells")
+    elif route == "overflow_fill":
+        # weights k * 2**510: their sums are exact, their squares (multiples of 2**1020) add up beyond 2**1024 in a bin hit
+        # often enough -- the squared error of that bin is inf, its content finite
+        if transformed:
+            return rand_nonfinite_setup(rng, route, False)
+        setup = [{"op": "empty", "out": 0, "axes": init["axes"], "names": init["names"], "keep": True, "dtype": "float64"}]
+        hot = [[midpoint(rng.choice(a[1])) for a in axes] for _ in range(rng.randint(1, 2))]
+        for _ in range(rng.randint(4, 12)):
+            v = rng.choice(hot) if rng.random() < 0.7 else [midpoint(rng.choice(a[1])) for a in axes]
+            setup.append({"op": "fill", "h": 0, "v": [rs(x) for x in v], "w": rs(rng.choice([3, 3, 2, 1]) * 2**510), "wk": "pyfloat"})
+    elif route == "overflow_scaled":
+        # cells k * unit (unit = 2**1020 / 2**124), the large ones at the top of the float range; times 2 they are inf
+        dt = rng.choice(["float64", "float64", "float32"])
+        unit = 2**1020 if dt == "float64" else 2**124
+        pick = lambda: rs(rng.choice([0, 0, 1, 1, 2, 3, 8, 12]) * unit)
+        on_grid = rng.random() < 0.5        # (small numbers and numbers of the grid are never mixed: their sums would be rounded)
+        init.update(freq=[pick() for _ in range(size)], err2=[pick() if on_grid else rs(rng.choice([0, 1, 2, 4])) for _ in range(size)],
+                    dtype=dt)
+        how = rng.choice(["imul", "mul", "rmul"])
+        setup.append({"op": "imul", "h": 0, "c": "2", "k": "pyint"} if how == "imul" else
+                     {"op": "mul", "h": 0, "c": "2", "k": "pyint", "out": 0, "reflected": how == "rmul"})
+        tags.append(f"nonfinite_dtype:{dt}")
+    else:
+        raise ValueError(route)
+    return setup, d, names, tags, extra, plain, parent_T
+
+
+NF = {None: "nan", "inf": "inf", "-inf": "-inf"}
+
+
+class Ext:
+    """NaN, +inf, -inf next to the Fractions, with IEEE addition (NaN equals NaN here: 'the sum is NaN' is a statement)"""
+    __slots__ = ("k",)
+
+    def __init__(self, k):
+        self.k = k
+
+    def __add__(self, o):
+        ok = o.k if isinstance(o, Ext) else None
+        if self.k == "nan" or ok == "nan":
+            return XNAN
+        if ok is not None and ok != self.k:
+            return XNAN             # inf + -inf
+        return self
+
+    __radd__ = __add__
+
+    def __eq__(self, o):
+        return isinstance(o, Ext) and o.k == self.k
+
+    def __ne__(self, o):
+        return not self.__eq__(o)
+
+    def __hash__(self):
+        return hash(("Ext", self.k))
+
+    def __str__(self):
+        return self.k
+
+    __repr__ = __str__
+
+
+XNAN, XINF, XNINF = Ext("nan"), Ext("inf"), Ext("-inf")
+XOF = {"nan": XNAN, "inf": XINF, "-inf": XNINF}
+
+
+def xval(v):
+    """a snapshot entry (rational string, None = NaN, 'inf', '-inf') or a number as a Fraction / Ext"""
+    if isinstance(v, Ext):
+        return v
+    if v is None or v in ("inf", "-inf"):
+        return XOF[NF[v]]
+    return Fraction(v)
+
+
+def nonfinite_entry(v):
+    return v is None or v in ("inf", "-inf")
+
+
+def arr_nf(vals, dt):
+    """float array from rational strings, None (NaN) and 'inf'; every finite value exactly representable in `dt`"""
+    a = np.array([float("nan") if v is None else (float(v) if v in ("inf", "-inf") else implnd.fl(v)) for v in vals], dtype=float)
+    b = a.astype(dt)
+    fin = np.isfinite(a)
+    if not np.array_equal(b[fin].astype(float), a[fin]) or not np.array_equal(np.isfinite(b), fin):
+        raise KeyError(f"harness: values not representable in {dt}")
+    return b
+
+
 # ------------------------------------------------------------------ running the ops of this property on the real library
 
 def step9(s, op, log):
     """implnd.step plus the two ways of making a parent of a transformed class"""
     name = op["op"]
+    if name in ("div_array", "mul_inf"):
+        # h / array under config.enable_free_arithmetics(); h * inf (inf * h, h *= inf), inside or outside free arithmetics
+        from physt.config import config
+        import contextlib
+        try:
+            x = s.get(op["h"])
+            with (config.enable_free_arithmetics() if op.get("free") else contextlib.nullcontext()):
+                if name == "div_array":
+                    r = x / np.array([implnd.fl(v) for v in op["arr"]], dtype=float).reshape(x.shape)
+                else:
+                    c = float("inf") * op.get("sign", 1)
+                    if op.get("how") == "imul":
+                        r = x.copy()
+                        r *= c
+                    else:
+                        r = (c * x) if op.get("how") == "rmul" else (x * c)
+            s.set(op["out"], r)
+            return "ok"
+        except Exception as e:
+            log.append(f"{name}: {type(e).__name__}: {e}"[:200])
+            return implnd.REFUSED
+    if name == "of_arrays" and op.get("nonfinite"):
+        try:
+            axes = [implnd.mk_binning(b) for b in op["axes"]]
+            shape = tuple(len(b["bins"]) if b["t"] == "static" else b["count"] for b in op["axes"])
+            dt = np.dtype(op["dtype"])
+            f = arr_nf(op["freq"], dt).reshape(shape)
+            e = None if op.get("err2") is None else arr_nf(op["err2"], dt).reshape(shape)
+            klass = implnd.Histogram2D if len(axes) == 2 else implnd.HistogramND
+            kw = {} if op.get("names") is None else {"axis_names": op["names"]}
+            s.set(op["out"], klass(axes, f, errors2=e, missed=implnd.fl(op.get("missed", "0")), keep_missed=op.get("keep", True), **kw))
+            return "ok"
+        except KeyError:
+            raise
+        except Exception as e:
+            log.append(f"{name}: {type(e).__name__}: {e}"[:200])
+            return implnd.REFUSED
     if name not in ("of_special", "facade"):
         return implnd.step(s, op, log)
     from physt import special_histograms as sp
@@ -759,8 +1003,9 @@ def step9(s, op, log):
             axes = [implnd.mk_binning(b) for b in op["axes"]]
             shape = tuple(len(b["bins"]) for b in op["axes"])
             dt = np.dtype(op["dtype"])
-            f = implnd.arr_exact(op["freq"], dt).reshape(shape)
-            e = None if op.get("err2") is None else implnd.arr_exact(op["err2"], dt).reshape(shape)
+            mk = arr_nf if op.get("nonfinite") else implnd.arr_exact
+            f = mk(op["freq"], dt).reshape(shape)
+            e = None if op.get("err2") is None else mk(op["err2"], dt).reshape(shape)
             r = klass(axes, f, errors2=e, missed=implnd.fl(op.get("missed", "0")), keep_missed=op.get("keep", True), **kw)
         else:
             P = np.array([[implnd.fl(v) for v in p] for p in op["points"]], dtype=float)
@@ -772,6 +1017,8 @@ def step9(s, op, log):
             r.axis_names = tuple(op["names"])
         s.set(op["out"], r)
         return "ok"
+    except KeyError:
+        raise
     except Exception as e:
         log.append(f"{name}: {type(e).__name__}: {e}"[:200])
         return implnd.REFUSED
@@ -867,6 +1114,19 @@ class C09(HistNProp):
             "differing in the last character or in length only; same calls and clauses as above. Not pinned: the label of an "
             "axis without a name in a result ('' / None / 'axis<i>'), whether '' / 'None' / 'axis<i>' address an unnamed axis "
             "(never generated). Axes named None and 1-d results whose only axis has no name: oracle only. "
+            "Non-finite contents (stream:nonfinite, every 8th case; every 8th case of the failing-input search; thorough: 12 cases "
+            "per route x plain / transformed class): float16 / float32 / float64 parents, plain and of the transformed classes, "
+            "in which contents and / or squared errors are NaN or +inf -- given to the constructor (one NaN, one inf, NaN and "
+            "inf / two inf / two NaN in one line, a whole NaN line, scattered; in the contents, the squared errors, both, or "
+            "the contents with default squared errors), made by h / array with zeros under enable_free_arithmetics (0 / 0, "
+            "x / 0), by h * inf (0 * inf), by filling with weights k * 2**510 whose squares add up beyond the float range, or "
+            "by doubling cells at the top of the float range; projection onto every axis subset in every spelling, the "
+            "results projected again, accumulate along every axis, T. Oracle in extended arithmetic (snapshots: None = NaN, "
+            "'inf'): a sum with a NaN summand is NaN, inf + finite = inf, all-finite sums are exact (finite cells on a grid; an "
+            "exact sum beyond the result type's largest number is inf), total of the projection = total of the parent. Oracle "
+            "only unless every cell came out finite. Parents with negative cells (array with negative entries, h * -inf, under "
+            "free arithmetics): a refusal of projection / accumulate / T that leaves the histogram untouched is accepted (the "
+            "library refuses negative contents outside free arithmetics), a returned result must be the sums. "
             "Thorough: every transformed class x every kind of names, every name pattern x d = 2, 3, 4 (4 cases each). "
             "non-trivial = non-zero contents and at least one axis with > 1 bin dropped; distinct = op-list hash")
     FIELDS = {"bins", "shape", "freq", "err2", "total", "dtype", "names", "ndim"}
@@ -878,6 +1138,8 @@ class C09(HistNProp):
             return self.gen_transformed(rng)
         if ENABLE_ODD_NAMES and (k % 16 == 8 or (tier == "search" and k % 16 == 12)):
             return self.gen_odd_names(rng)
+        if ENABLE_NONFINITE and (k % 16 in (7, 15) or (tier == "search" and k % 8 == 7)):
+            return self.gen_nonfinite(rng)
         extra = {}
         if narrow:
             setup, axes, tags = rand_narrow_ops(rng)
@@ -968,6 +1230,18 @@ class C09(HistNProp):
         return build_named(rng, setup, d, believed, tags, extra, plain2d=plain, parent_T=False, p_name=0.65,
                            unknown_on_results=["r", "rho", "phi", "theta", "z"])
 
+    def gen_nonfinite(self, rng, route=None, transformed=None):
+        """stream:nonfinite -- a float parent (plain or of a transformed class) some of whose contents / squared errors are
+        NaN or inf (see the comment at ENABLE_NONFINITE); projection onto every axis subset, the 2-d / 3-d results projected
+        again, accumulate along axes, T"""
+        setup, d, names, tags, extra, plain, parent_T = rand_nonfinite_setup(rng, route, transformed)
+        c = build_named(rng, setup, d, names, tags, extra, plain2d=plain, parent_T=parent_T, p_name=0.5)
+        # running sums along every axis of the parent
+        nxt = 1 + max([o["out"] for o in c["ops"] if isinstance(o.get("out"), int)] + [o.get("_twin", 0) for o in c["ops"]])
+        for ax in range(d):
+            c["ops"].append({"op": "accumulate", "h": 0, "axis": ax, "out": nxt + ax, "_axis": ax})
+        return c
+
     def gen_odd_names(self, rng, d=None, pattern=None):
         """stream:odd_names -- a plain 2-d .. 4-d parent some of whose axes have no name ('' / None, before / between / after
         the named ones) or whose names look like integers, like another axis' default name, are unicode or very long"""
@@ -1018,6 +1292,8 @@ class C09(HistNProp):
         # results whose only axis has no name are outside the model: those cases are judged by the oracle alone
         if case.get("no_model"):
             return None
+        if case.get("nonfinite") and (any(o["op"] in ("div_array", "mul_inf") for o in case["ops"]) or self.has_nonfinite(io)):
+            return None
         if any(o["op"] == "facade" for o in case["ops"]):
             return None
         if any(o["op"] == "of_special" for o in case["ops"]):
@@ -1032,6 +1308,14 @@ class C09(HistNProp):
                         o["names"] = list(SPECIAL[o["class"]]["defaults"])
             return c
         return case
+
+    @staticmethod
+    def has_nonfinite(io):
+        try:
+            return any(nonfinite_entry(v) for o in io["outs"] for r in o["regs"] if r is not None
+                       for v in list(r["freq"]) + list(r["err2"]) + [r["total"], r["missed"]])
+        except Exception:
+            return True
 
     def exhaustive_cases(self, tier):
         if tier != "thorough":
@@ -1061,6 +1345,13 @@ class C09(HistNProp):
                         c = self.gen_odd_names(rng, d, pattern)
                         c["tags"].append("exhaustive_name_patterns")
                         yield c
+        if ENABLE_NONFINITE:
+            for route in sorted(set(NF_ROUTES)):
+                for tr in (False, True):
+                    for _ in range(12):
+                        c = self.gen_nonfinite(rng, route, tr)
+                        c["tags"].append("exhaustive_nonfinite_routes")
+                        yield c
         if not ENABLE_BEYOND53:
             return
         for d in (2, 3, 4):
@@ -1077,6 +1368,18 @@ class C09(HistNProp):
         running sums then exceed the parent type's range), directly and through set_dtype"""
         ops = case["ops"]
         ns = case.get("setup", 1)
+        if case.get("nonfinite"):
+            # the same history with the cells of the parent (the non-finite ones among them) moved on by one / two places
+            if ops and ops[0].get("op") in ("of_arrays", "of_special") and ops[0].get("nonfinite"):
+                for shift in (1, 2):
+                    c = copy.deepcopy(case)
+                    for key in ("freq", "err2"):
+                        v = c["ops"][0].get(key)
+                        if v is not None:
+                            c["ops"][0][key] = v[shift:] + v[:shift]
+                    c["tags"] = list(c.get("tags", [])) + ["neighbour"]
+                    yield c
+            return
         if not ops or ops[0].get("op") != "of_arrays":
             return
         for dt, lim in INT_LIMIT.items():
@@ -1146,6 +1449,26 @@ class C09(HistNProp):
             # (dropping whole calls keeps the bookkeeping of the remaining ones right; their axis lists stay as they are)
             # then: plain contents, no squared errors of its own, ordinary short names for the named axes that are long
             init = ops[0]
+            if case.get("nonfinite"):
+                # fewer non-finite cells, then plain finite ones; fewer fills; the case stays well-formed
+                for key in ("freq", "err2"):
+                    vals = init.get(key) if init["op"] in ("of_arrays", "of_special") else None
+                    for i, v in enumerate(vals or []):
+                        if init.get("nonfinite") and nonfinite_entry(v):
+                            c = copy.deepcopy(case)
+                            c["ops"][0][key][i] = "1"
+                            yield c
+                    if ns == 1 and init.get("nonfinite") and vals and any(not nonfinite_entry(v) and v not in ("0", "1") for v in vals):
+                        c = copy.deepcopy(case)
+                        c["ops"][0][key] = [v if nonfinite_entry(v) else "1" for v in vals]
+                        yield c
+                fills = [k for k in range(1, ns) if ops[k]["op"] == "fill"]
+                for k in fills[::-1]:
+                    c = copy.deepcopy(case)
+                    del c["ops"][k]
+                    c["setup"] = ns - 1
+                    yield c
+                return
             if init["op"] in ("of_arrays", "of_special"):
                 if init.get("err2") is not None:
                     c = copy.deepcopy(case)
@@ -1195,6 +1518,33 @@ class C09(HistNProp):
 
     def tags(self, case, io):
         t = super().tags(case, io)
+        if case.get("nonfinite"):
+            try:
+                src = io["outs"][case.get("setup", 1) - 1]["regs"][0]
+                for key in ("freq", "err2"):
+                    A = obj_arr(src[key], src["shape"])
+                    ks = {x.k for x in A.ravel() if isinstance(x, Ext)}
+                    t += [f"nonfinite:{k}_cell_in_{key}" for k in sorted(ks)]
+                    if not ks:
+                        t.append(f"nonfinite:{key}_all_finite")
+                    for ax in range(src["ndim"]):
+                        lines = np.moveaxis(A, ax, -1).reshape(-1, src["shape"][ax])
+                        for ln in lines:
+                            kk = [x.k for x in ln if isinstance(x, Ext)]
+                            if "nan" in kk and len(kk) < len(ln):
+                                t.append(f"nonfinite:{key}_line_with_nan_and_finite_summands")
+                            if "nan" in kk and "inf" in kk:
+                                t.append(f"nonfinite:{key}_line_with_nan_and_inf")
+                            if kk.count("inf") >= 2:
+                                t.append(f"nonfinite:{key}_line_with_two_inf")
+                    if any(Fraction(v) < 0 for v in src[key] if not nonfinite_entry(v)) or "-inf" in ks:
+                        t.append(f"nonfinite:negative_cell_in_{key}")
+                t = sorted(set(t))
+                if any(o["ret"] == "REFUSED" and not op.get("expect") and op["op"] in ("projection", "accumulate", "T")
+                       for o, op in zip(io["outs"], case["ops"])):
+                    t.append("nonfinite:refusal_of_negative_result_accepted")
+            except Exception:
+                pass
         if case.get("layout") == "named":
             try:
                 last = io["outs"][-1]["regs"]
@@ -1251,16 +1601,28 @@ class C09(HistNProp):
         # float32 parents of the tolerance stream: every sum may be rounded (at float32 precision); everything else exact
         tol = Fraction(1, 10**5) if case.get("tolerance") else None
 
-        def same(got, exp):
-            got, exp = [Fraction(x) for x in got], [Fraction(x) for x in exp]
+        nonfinite = bool(case.get("nonfinite"))
+
+        def same(got, exp, dtype=None):
+            got, exp = [xval(x) for x in got], [xval(x) for x in exp]
+            if nonfinite and dtype in FLOAT_MAX:
+                # a finite exact sum beyond the largest number of the result's float type is inf there (all such sums of
+                # this stream lie on a grid far coarser than the rounding at the top of the range)
+                exp = [x if isinstance(x, Ext) or x <= FLOAT_MAX[dtype] else XINF for x in exp]
             if len(got) != len(exp):
                 return False
             if tol is None:
                 return got == exp
-            return all(abs(a - b) <= tol * max(abs(a), abs(b)) for a, b in zip(got, exp))
+            return all((a == b) if isinstance(a, Ext) or isinstance(b, Ext) else abs(a - b) <= tol * max(abs(a), abs(b))
+                       for a, b in zip(got, exp))
+
+        def negative_cells(reg):
+            return any(v == "-inf" or (not nonfinite_entry(v) and Fraction(v) < 0) for v in list(reg["freq"]) + list(reg["err2"]))
 
         def bits(vals):
             """how the exact sums compare with what float64 can hold (for the reader of a failure)"""
+            if any(isinstance(x, Ext) for x in vals):
+                return " [NaN: some summand is NaN; inf: some summand is inf]"
             big = [x for x in vals if Fraction(float(x)) != x]
             return f" [{len(big)} of the exact sums are integers that float64 cannot hold]" if big else ""
 
@@ -1314,6 +1676,12 @@ class C09(HistNProp):
                     continue
                 if op["op"] in ("select", "merge", "partial_normalize"):
                     continue        # with an existing axis: other properties' business
+            if ret == "REFUSED" and nonfinite and negative_cells(par) and op["op"] in ("projection", "accumulate", "T"):
+                # a histogram with negative contents (made under free arithmetics): the library refuses results with negative
+                # contents outside free arithmetics; the refusal must leave the histogram as it was
+                if regs[op["h"]] != par:
+                    fails.append(f"refused_modified: the refused call {op['op']} at step {k} changed the histogram")
+                continue
             if ret == "REFUSED":
                 fails.append(f"refused_valid: {op} of the {par['dtype']} histogram {par['freq']} (shape {par['shape']}, axes "
                              f"{pn}) refused: " + "; ".join(io["log"][:2]))
@@ -1327,12 +1695,12 @@ class C09(HistNProp):
                 r = regs[op["out"]]
                 ef = PF.sum(axis=drop) if drop else PF
                 ee = PE.sum(axis=drop) if drop else PE
-                if not same(r["freq"], flat(ef)):
+                if not same(r["freq"], flat(ef), r["dtype"]):
                     whose = f" {self.path(case, op['h'])} with axes {pn}," if named else ""
                     fails.append(f"marginal: projection{tuple(op['axes'])} of the {par['dtype']} histogram{whose} {par['freq']} (shape "
                                  f"{par['shape']}): contents {r['freq']} are not the sums over the dropped axes "
                                  f"{[str(x) for x in flat(ef)]}{bits(flat(ef))}")
-                if not same(r["err2"], flat(ee)):
+                if not same(r["err2"], flat(ee), r["dtype"]):
                     fails.append(f"marginal_err2: projection{tuple(op['axes'])} of the {par['dtype']} histogram with squared errors "
                                  f"{par['err2']} (shape {par['shape']}): squared errors {r['err2']} are not the sums over "
                                  f"the dropped axes {[str(x) for x in flat(ee)]}{bits(flat(ee))}")
@@ -1344,7 +1712,7 @@ class C09(HistNProp):
                                  f"axes {pn}) has axis names {rn}, the kept axes {axs} are named {[pn[i] for i in axs]}")
                 if not same([r["total"]], [par["total"]]):
                     fails.append(f"proj_total: total changed from {par['total']} to {r['total']}")
-                elif not same([r["total"]], [sum(flat(PF), Fraction(0))]):
+                elif not same([r["total"]], [sum(flat(PF), Fraction(0))], r["dtype"]):
                     fails.append(f"proj_total_exact: the total {r['total']} of projection{tuple(op['axes'])} is not the sum "
                                  f"{sum(flat(PF), Fraction(0))} of the parent's contents {par['freq']}")
                 if r["ndim"] != len(axs):
@@ -1354,14 +1722,14 @@ class C09(HistNProp):
                 r = regs[op["out"]]
                 AF = obj_arr(par["freq"], par["shape"])
                 cs = np.cumsum(AF, axis=ax)
-                if not same(r["freq"], flat(cs)):
+                if not same(r["freq"], flat(cs), r["dtype"]):
                     fails.append(f"accumulate: accumulate({op['axis']!r}) of the {par['dtype']} histogram {par['freq']} (shape "
                                  f"{par['shape']}, axes {pn}) gives {r['freq']}, not the running sums along axis {ax} "
                                  f"{[str(x) for x in flat(cs)]}")
                 elif r["shape"] == par["shape"]:
                     # last cumulative entry = marginal over that axis
                     lastslice = flat(np.take(obj_arr(r["freq"], r["shape"]), -1, axis=ax))
-                    if not same(lastslice, flat(AF.sum(axis=ax))):
+                    if not same(lastslice, flat(AF.sum(axis=ax)), r["dtype"]):
                         fails.append(f"accumulate_last: the last entries of accumulate({op['axis']!r}) are not the marginal over axis {ax}")
                 if r["bins"] != par["bins"] or raw_names(r) != pn:
                     fails.append("accumulate_bins: accumulate changed bins or names")
@@ -1371,7 +1739,7 @@ class C09(HistNProp):
                     fails.append(f"T_bins_names: T of {self.path(case, op['h'])} (axes {pn}) does not swap bins and names: axes "
                                  f"{raw_names(t)}, bins {t['bins']}")
                 TF, TE = obj_arr(par["freq"], par["shape"]).T, obj_arr(par["err2"], par["shape"]).T
-                if [Fraction(x) for x in t["freq"]] != flat(TF) or [Fraction(x) for x in t["err2"]] != flat(TE):
+                if [xval(x) for x in t["freq"]] != flat(TF) or [xval(x) for x in t["err2"]] != flat(TE):
                     fails.append(f"T_contents: T of {self.path(case, op['h'])} does not transpose contents / errors")
                 if t["missed"] != par["missed"] or t["dtype"] != par["dtype"]:
                     fails.append(f"T_missed: T changed missed / dtype from {par['missed']} / {par['dtype']} to {t['missed']} / {t['dtype']}")
@@ -1520,7 +1888,7 @@ class C09(HistNProp):
     def nontrivial(self, case, io):
         try:
             s = io["outs"][case.get("setup", 1) - 1]["regs"][0]
-            return any(Fraction(x) != 0 for x in s["freq"]) and any(n > 1 for n in s["shape"])
+            return any(nonfinite_entry(x) or Fraction(x) != 0 for x in s["freq"]) and any(n > 1 for n in s["shape"])
         except Exception:
             return False
 
